@@ -294,6 +294,24 @@ def bases():
     return [name for name, _ in shipped() if segments(name).ok]
 
 
+# lines with characters that take several bytes in UTF-8 (comments of the echoed data file,
+# messages of the job script between two editions): the scanner does not interpret them
+NOTES = [' // vérification de la géométrie : données révisées à l\'été\n'.encode('utf-8'),
+         ' sauvegarde des résultats terminée — répertoire /home/rené/résultats\n'.encode('utf-8'),
+         ' ÉNERGIE déposée (µSv) – contrôle\n'.encode('utf-8')]
+
+
+def note_offsets(data):
+    """Offsets of ``data`` at which a cut falls inside a multi-byte character of a note."""
+    offs = []
+    for note in NOTES:
+        start = data.find(note)
+        while start >= 0:
+            offs += [start + k for k, byte in enumerate(note) if 0x80 <= byte < 0xC0]
+            start = data.find(note, start + 1)
+    return sorted(set(offs))
+
+
 def build_synthetic(recipe):
     """Bytes of the synthetic listing described by ``recipe`` (plain dict, every index is taken
     modulo the size of the pool it points into):
@@ -308,6 +326,8 @@ def build_synthetic(recipe):
                or a list of indices into the response blocks except the last one; the last block,
                which carries the sections that close an edition, always stays last}
     ``tail``   bool: keep the text after the last edition
+    ``notes``  optional list of {'where': 'head' | 'after', 'at': index, 'text': index}: a line of
+               NOTES inserted after a line of the head / after the end of a chosen edition
     """
     names = bases()
     base = names[recipe['base'] % len(names)]
@@ -326,7 +346,11 @@ def build_synthetic(recipe):
             break
         picks[remaining.pop(pick['ed'] % len(remaining))] = pick
     out = list(head)
-    for idx in sorted(picks):
+    notes = recipe.get('notes') or []
+    for note in notes:
+        if note['where'] == 'head' and out:
+            out.insert(1 + note['at'] % len(out), NOTES[note['text'] % len(NOTES)])
+    for rank, idx in enumerate(sorted(picks)):
         pick = picks[idx]
         blocks = seg.inter[idx]
         keep = pick.get('keep')
@@ -345,6 +369,9 @@ def build_synthetic(recipe):
         for block in chosen:
             out.extend(block)
         out.extend(edi['end'])
+        for note in notes:
+            if note['where'] == 'after' and note['at'] % len(picks) == rank:
+                out.append(NOTES[note['text'] % len(NOTES)])
     if recipe.get('tail', True):
         out.extend(seg.tail)
     return b''.join(out)
